@@ -232,7 +232,9 @@ class CheckContext:
             if os.environ.get("PYVC_DEBUG"):
                 traceback.print_exc()
             self.outside_subset.append({"obligation": f"{self.prop}/{ident}", "reason": str(e)})
-            return self.undecided(ident, f"outside subset: {e}", clause)
+            r_ = self.undecided(ident, f"outside subset: {e}", clause)
+            r_.replay, r_.fn = replay, fn          # an undecided obligation still consults its run-time replay (a failing input on the real code is a violation)
+            return r_
         except Exception as e:  # engine failure: undecided, never a violation
             tb = traceback.format_exc()
             self.outside_subset.append({"obligation": f"{self.prop}/{ident}", "reason": f"engine error: {e!r}"})
